@@ -1344,6 +1344,15 @@ pub mod verif {
         super::extract_next_presence_batch(presences, max_message_size).map(|batch| batch.collect())
     }
 
+    /// The real [`super::send_request`] on a substream of the caller (whose codec decides the
+    /// message size limit).
+    pub async fn send_request(
+        substream: &mut Substream,
+        cids: Vec<(Cid, WantType)>,
+    ) -> Result<(), Error> {
+        super::send_request(substream, cids).await
+    }
+
     /// The crate-private [`Bitswap`] event loop behind a public name (to be given a
     /// harness-fed [`TransportService`]).
     pub struct VerifBitswap(Bitswap);
